@@ -485,6 +485,10 @@ def _residual(D, zero_forms, q):
 def prove(enc, goal_smt, extra=(), timeout=60, solvers=("z3",)):
     """generic: goal (an SMT Bool string) holds under enc's constraints"""
     t0 = time.time()
+    import os
+    if os.environ.get("VERIF_DUMP_SMT"):
+        with open(os.environ["VERIF_DUMP_SMT"], "w") as fh:
+            fh.write(enc.script("(not %s)" % goal_smt, extra=list(extra), logic="QF_LIA", models=False))
     v, mod, dt, s = _solve(enc, "(not %s)" % goal_smt, list(extra), timeout, solvers, models=True)
     if v == "unsat":
         return Result("proved", s, time.time() - t0, 1)
